@@ -149,6 +149,8 @@ type world struct {
 	digest     []string
 	stop       bool
 	feeCollected int64
+	lastStorage, lastDeposit map[string]int64
+	onlyGrowth bool
 }
 
 func (w *world) fail(prop, oracle, format string, args ...any) {
@@ -576,6 +578,11 @@ func (w *world) checkBlock(b blockSpec, txs []*simTx, res blockResult) {
 			return
 		}
 	}
+	// C06 / C09: persisted object graph and storage accounting of the workload realms, from bytes
+	w.checkGraph(b, au)
+	if w.stop {
+		return
+	}
 	// C14: the repository's own invariants + raw recomputation
 	if msg := au.invariants(); msg != "" {
 		w.fail("C14", "bank-auth-invariants", "height %d: %s", b.Height, clip(msg, 1500))
@@ -760,6 +767,71 @@ func runChain(c *kernel.Choices, p kernel.Params) *kernel.Result {
 	return w.r
 }
 
+var watchedRealms = []string{boxPath}
+
+func (w *world) checkGraph(b blockSpec, au *auditor) {
+	var ids []string
+	for _, p := range watchedRealms {
+		ids = append(ids, pkgIDHex(p))
+	}
+	g := au.buildGraph(ids...)
+	watch := map[string]bool{}
+	for _, id := range ids {
+		watch[id] = true
+	}
+	if bad := g.check(watch, false); len(bad) > 0 {
+		w.fail("C06", "object-graph", "height %d: %d inconsistencies in the persisted object graph, first: %s", b.Height, len(bad), strings.Join(bad[:min(3, len(bad))], " | "))
+		return
+	}
+	w.r.ProbeN("objects_audited", len(g.objs))
+	for _, id := range sortedObjIDs(g.objs) {
+		o := g.objs[id]
+		if o.escaped {
+			w.r.Probe("escaped_objects_seen")
+			// an escaped object's hash is committed in the merkle (main) store under its id
+			hv := au.get("main", []byte(id))
+			if fmt.Sprintf("%X", hv) != o.hash {
+				w.fail("C06", "escaped-hash-entry", "height %d: escaped object %s has stored hash %s but the main store holds %X under its id", b.Height, id, o.hash, hv)
+				return
+			}
+		}
+	}
+	for i, p := range watchedRealms {
+		rec, ok := g.realms[ids[i]]
+		if !ok {
+			continue
+		}
+		objBytes := g.bytes[ids[i]]
+		prm := au.paramsBytes(p)
+		if int64(rec.Storage) != objBytes+prm {
+			w.fail("C09", "storage-vs-bytes", "height %d: realm %s records Storage=%d but owns %d object bytes + %d parameter bytes = %d on disk", b.Height, p, rec.Storage, objBytes, prm, objBytes+prm)
+			return
+		}
+		held := au.balanceOf(storageDepositAddr(p))
+		if int64(rec.Deposit) > held {
+			w.fail("C09", "deposit-not-backed", "height %d: realm %s records Deposit=%d but its storage-deposit address holds %d", b.Height, p, rec.Deposit, held)
+			return
+		}
+		if rec.Storage == 0 && rec.Deposit != 0 {
+			w.fail("C09", "deposit-left-after-full-release", "height %d: realm %s has Storage 0 but Deposit %d", b.Height, p, rec.Deposit)
+			return
+		}
+		// constant price in this workload: every byte is backed at the genesis price
+		if w.lastStorage != nil {
+			ds := int64(rec.Storage) - w.lastStorage[p]
+			dd := int64(rec.Deposit) - w.lastDeposit[p]
+			if ds > 0 && w.onlyGrowth && dd != ds*100 {
+				w.fail("C09", "deposit-vs-price", "height %d: realm %s grew by %d bytes, deposit grew by %d (price 100ugnot/byte)", b.Height, p, ds, dd)
+				return
+			}
+		} else {
+			w.lastStorage, w.lastDeposit = map[string]int64{}, map[string]int64{}
+		}
+		w.lastStorage[p], w.lastDeposit[p] = int64(rec.Storage), int64(rec.Deposit)
+		w.r.Probe("realm_storage_audited")
+	}
+}
+
 func (w *world) checkGas(b blockSpec, txs []*simTx, res blockResult, maxGas int64) {
 	var sum int64
 	for i, r := range res.Txs {
@@ -806,5 +878,5 @@ var _ = json.Marshal
 
 var engines = map[string]kernel.Engine{
 	"C01": runChain, "C02": runChain, "C10": runChain, "C14": runChain, "C15": runChain,
-	"C27": runCrash,
+	"C27": runCrash, "C06": runChain, "C09": runChain,
 }
